@@ -280,7 +280,7 @@ def finite(x):
 # ----------------------------------------------------------------------------
 def run(ctx):
     tier = ctx.tier
-    ncases = 36 if tier == "quick" else 400
+    ncases = 30 if tier == "quick" else 400
     mirror_budget = 7000 if tier == "quick" else 40000
     if ctx.replay_case:
         cases = [ctx.replay_case["detail"]["case"]]
